@@ -19,6 +19,7 @@ ENGINES = [
     {"name": "grace", "path": "harness/eng_grace.go", "serves_properties": ["C47"], "kind_free_text": "runs the real shard new-epoch handler and engine start-up cleanup against Model/Grace.lean over the property's full table"},
     {"name": "arith", "path": "harness/eng_arith.go", "serves_properties": ["C39"], "kind_free_text": "differential driver of pkg/util/precision against Model/Precision.lean with a math/big oracle"},
     {"name": "timers", "path": "harness/eng_timers.go", "serves_properties": ["C40"], "kind_free_text": "drives real timers.EpochTimers with counting handlers against Model/Timers.lean"},
+    {"name": "gov", "path": "harness/eng_gov.go", "serves_properties": ["C36"], "kind_free_text": "enumerates current/main-network/inner-ring key lists through the real newAlphabetList/updateInnerRing against Model/Governance.lean"},
     {"name": "ec", "path": "harness/eng_ec.go", "serves_properties": ["C21", "C22"], "kind_free_text": "differential driver of internal/ec against Model/EC.lean"},
 ]
 
@@ -121,3 +122,16 @@ prop("C40",
           "sequence of them.",
      rule="all histories of length <= 3 (quick) / <= 5 (thorough) over 6 resets x 9 block times with 5 fractions (1/2, 1/1, 3/2, 0/1, 2/3), plus seeded "
           "histories of 4..17 events incl. values near 2^64; non-trivial = more than 3 events; distinct by history")
+
+prop("C36",
+     theorems=["NeoFS.Gov.rotation", "NeoFS.Gov.rotation_differs", "NeoFS.Gov.innerRing_update"],
+     engines=[dict(name="gov", quick=1, thorough=1)],
+     claim="General Lean theorems over arbitrary duplicate-free key lists: a proposed alphabet has the current size, no duplicates, only current and "
+           "main-network keys, at most floor((n-1)/3) new keys and at least one new key (so it differs from the current one); the derived inner ring "
+           "list is duplicate-free and equals (ring minus replaced keys) plus the new alphabet. Proved by loop invariants over the two loops of "
+           "newAlphabetList and an injectivity argument for updateInnerRing; model tied to the real functions over all lists of a 7/8-key universe.",
+     note="Trusted: Lean kernel; hand model Model/Governance.lean (keys as ranks in their sort order; map keyed by address modelled by list membership) "
+          "tied by correspondence through verif exports of the two unexported functions.",
+     rule="current lists = all subsets of size 1..6 of a 7-key universe (8 in thorough), main lists = all supersized subsets (quick: a seeded quarter), "
+          "each in shuffled order; per pair two inner rings = alphabet + 0..2 extra keys incl. keys that become alphabet; non-trivial = a rotation "
+          "is proposed; distinct by op")
